@@ -5,12 +5,12 @@ from lib.common import Broken, Violation, verdict, save_replay
 
 PROPS = {
     "C37": {
-        "text": "SqlProxyAuth.tla models one client connection through the SQL proxy's handleConn: per query the 512-byte truncation, the per-connection decision cache keyed by the (truncated or full) text, authorizeQuery and the forward/refuse outcome; a query is abstracted to its statement shape and topic references placed before / across / after byte 512. TLC checks exhaustively (5 ACL configurations incl. wildcard allow + deny, cache on/off, sequences of <=2 (quick) / <=3 (thorough) queries out of 60 abstract statements) that every forwarded query reads only allowed topics. TLC-enumerated sequences (all single queries, all pairs in the thorough tier, simulated longer ones, counterexamples of the named wrong designs) are rendered to SQL text and sent through the REAL handleConn between a pgproto3 client and a fake upstream; TLC evaluates the property on what the upstream received (layer O) and checks each outcome against the model (layer C).",
+        "text": "SqlProxyAuth.tla models one client connection through the SQL proxy's handleConn: per query the 512-byte truncation, the per-connection decision cache keyed by the (truncated or full) text, authorizeQuery and the forward/refuse outcome; a query is abstracted to its statement shape and topic references placed before / across / after byte 512. TLC checks exhaustively (5 ACL configurations incl. wildcard allow + deny, cache on/off, sequences of <=2 (quick) / <=3 (thorough) queries out of 68 abstract statements) that every forwarded query reads only allowed topics. TLC-enumerated sequences (all single queries, all pairs in the thorough tier, simulated longer ones, counterexamples of the named wrong designs) are rendered to SQL text and sent through the REAL handleConn between a pgproto3 client and a fake upstream; TLC evaluates the property on what the upstream received (layer O) and checks each outcome against the model (layer C).",
         "note": "Trusted: TLC, the rendering of abstract queries to SQL text (cross-checked in every run against the upstream server's own parser kafsql.Parse), net.Pipe as transport, ACLs with exact topic names and the wildcard \"*\" (no other glob patterns). Simple-query protocol only (the proxy refuses the extended protocol).",
         "technique": "TLA+ model (SqlProxyAuth.tla) + TLC exhaustive check + replay of TLC-enumerated query sequences through the real proxy connection handler + TLC trace validation (observation and conformance layers)",
     }
 }
-DEVIATIONS = {n: "C37_ForwardedAuthorized" for n in ("FullText", "CacheKeyTruncated", "KeyCut", "KeyCutHuge", "StarSkipsDeny")}
+DEVIATIONS = {n: "C37_ForwardedAuthorized" for n in ("FullText", "CacheKeyTruncated", "KeyCut", "KeyCutHuge", "StarSkipsDeny", "AuthBeforeSemicolon")}
 PKG = "addons/processors/sql-processor"
 
 
